@@ -31,6 +31,51 @@ def all_options():
     return out
 
 
+def _constant_tensors(m):
+    from onnx import numpy_helper as nh_
+    out = []
+
+    def walk(g):
+        for t in g.initializer:
+            out.append(nh_.to_array(t))
+        for n in g.node:
+            for a in n.attribute:
+                if a.type == onnx.AttributeProto.TENSOR and n.op_type == "Constant":
+                    out.append(nh_.to_array(a.t))
+                elif a.type == onnx.AttributeProto.GRAPH:
+                    walk(a.g)
+    walk(m.graph)
+    for f in m.functions:
+        for n in f.node:
+            for a in n.attribute:
+                if a.type == onnx.AttributeProto.TENSOR and n.op_type == "Constant":
+                    out.append(nh_.to_array(a.t))
+    return out
+
+
+def _constants_lost(m1, m2, inline_const=False) -> str:
+    """Every constant tensor of the original that has a non-finite element or more than one element must occur bit for bit
+    (same dtype, shape, bytes) among the constants of the round-tripped model.  (Decides what the real-valued semantics cannot:
+    NaN, infinities, signed zeros, exact bit patterns of tables.)  Scalars with ordinary values may legitimately be re-typed when
+    they are inlined as Python literals and are left to the semantic comparison."""
+    def key(a):
+        return (str(a.dtype), tuple(a.shape), a.tobytes())
+    have = {}
+    for a in _constant_tensors(m2):
+        have[key(a)] = have.get(key(a), 0) + 1
+    for a in _constant_tensors(m1):
+        special = a.dtype.kind == "f" and a.size and not np.all(np.isfinite(a))
+        if not (special or a.size > 1):
+            continue
+        if inline_const and not special and a.ndim <= 1 and a.size < 5 and str(a.dtype) in ("float32", "int64"):
+            continue  # rendered as a Python literal: may come back re-typed / re-shaped by promotion; left to the semantic comparison
+        if a.dtype.kind not in "fiub":
+            continue
+        if have.get(key(a), 0) == 0:
+            return f"constant {a.dtype}{list(a.shape)} {np.array2string(a.reshape(-1)[:6], threshold=6)} has no bitwise equal in the round-tripped model"
+    return ""
+
+
 def _attach_functions(m2, fns, main_fn):
     """append the FunctionProtos of the other script functions of the generated module (and their opset imports)"""
     from onnx import helper as oh_
@@ -155,6 +200,11 @@ def _worker(payload):
     if len(ins1) != len(m2.graph.input) or len(mp.graph.output) != len(m2.graph.output):
         rec.update(verdict="signature_changed", stage="signature",
                    detail=f"inputs {len(ins1)} -> {len(m2.graph.input)}, outputs {len(mp.graph.output)} -> {len(m2.graph.output)}")
+        rec["solver"] = stats.as_dict()
+        return rec
+    lost = _constants_lost(mp, m2, inline_const=bool(opts.get("inline_const")))
+    if lost:
+        rec.update(verdict="constant_changed", stage="constants", detail=lost)
         rec["solver"] = stats.as_dict()
         return rec
     try:
@@ -351,6 +401,29 @@ def corpus(tier):
                 except Exception:  # noqa: BLE001
                     continue
                 items.append((f"optconst:{opn}({'c,x' if const_first else 'x,c'}) c={cval}{list(cshape)}", m.SerializeToString(), [("x", int(TP.FLOAT), (3,))]))
+    # constant TABLES with special values (NaN, +-inf, -0.0, tiny), several dtypes and ranks, as initializer and as Constant node:
+    # the symbolic semantics is over the reals, so these are decided by the constant-preservation side verdict (bitwise)
+    special = [np.nan, np.inf, -np.inf, -0.0, 1e-5, 3.0]
+    for dt_, npdt in ((TP.FLOAT, np.float32), (TP.DOUBLE, np.float64), (TP.FLOAT16, np.float16)):
+        for shape_ in ((6,), (2, 3), (1,), ()):
+            vals_ = np.array(special, dtype=npdt)[: int(np.prod(shape_)) if shape_ else 1].reshape(shape_)
+            for form_ in ("init", "node"):
+                if form_ == "init" and dt_ != TP.FLOAT and vals_.size > 4:
+                    continue  # skip_initializers refuses large initializers of other types with a descriptive error (allowed)
+                tbl = nh_.from_array(vals_, "tbl")
+                nodes_ = ([oh.make_node("Constant", [], ["tbl"], value=tbl)] if form_ == "node" else []) + [
+                    oh.make_node("Shape", ["tbl"], ["s"]), oh.make_node("Cast", ["s"], ["sf"], to=TP.FLOAT),
+                    oh.make_node("ReduceSum", ["sf"], ["r"], keepdims=0), oh.make_node("Add", ["x", "r"], ["y"]),
+                    oh.make_node("Identity", ["tbl"], ["t_out"])]
+                g_ = oh.make_graph(nodes_, "consttable", [oh.make_tensor_value_info("x", TP.FLOAT, [2])],
+                                   [oh.make_tensor_value_info("y", TP.FLOAT, [2]), oh.make_tensor_value_info("t_out", dt_, list(shape_))],
+                                   [tbl] if form_ == "init" else [])
+                m_ = oh.make_model(g_, opset_imports=[oh.make_opsetid("", 18)], ir_version=9)
+                try:
+                    onnx.checker.check_model(m_, full_check=True)
+                except Exception:  # noqa: BLE001
+                    continue
+                items.append((f"consttable:{TP.DataType.Name(dt_)}{list(shape_)}:{form_}", m_.SerializeToString(), [("x", int(TP.FLOAT), (2,))]))
     # small constants that are used as an If-branch output or as the initial value of a Loop state variable (inline_const must
     # still bind them)
     def _cn(name, v):
@@ -359,6 +432,14 @@ def corpus(tier):
     eb_ = oh.make_graph([oh.make_node("Neg", ["x"], ["e"])], "else", [], [oh.make_tensor_value_info("e", TP.FLOAT, [2])])
     g_ = oh.make_graph([oh.make_node("If", ["cnd"], ["y0"], then_branch=tb_, else_branch=eb_), oh.make_node("Add", ["y0", "x"], ["y"])], "ifconst",
                        [oh.make_tensor_value_info("x", TP.FLOAT, [2]), oh.make_tensor_value_info("cnd", TP.BOOL, [])], [oh.make_tensor_value_info("y", TP.FLOAT, [2])])
+    # sibling If branches that use the SAME name: a constant in one, a computed value in the other (valid ONNX: separate graphs)
+    tb2_ = oh.make_graph([_cn("c", 3.0), oh.make_node("Mul", ["x", "c"], ["t"])], "then", [], [oh.make_tensor_value_info("t", TP.FLOAT, [2])])
+    eb2_ = oh.make_graph([oh.make_node("Neg", ["x"], ["c"]), oh.make_node("Mul", ["x", "c"], ["e"])], "else", [], [oh.make_tensor_value_info("e", TP.FLOAT, [2])])
+    for tbx, ebx, nm in ((tb2_, eb2_, "constant_in_then"), (eb2_, tb2_, "constant_in_else")):
+        g2_ = oh.make_graph([oh.make_node("If", ["cnd"], ["y"], then_branch=tbx, else_branch=ebx)], "ifsib",
+                            [oh.make_tensor_value_info("x", TP.FLOAT, [2]), oh.make_tensor_value_info("cnd", TP.BOOL, [])], [oh.make_tensor_value_info("y", TP.FLOAT, [2])])
+        items.append((f"constuse:sibling_branches_reuse_a_name:{nm}", oh.make_model(g2_, opset_imports=[oh.make_opsetid("", 18)], ir_version=9).SerializeToString(),
+                      [("x", int(TP.FLOAT), (2,)), ("cnd", int(TP.BOOL), ())]))
     items.append(("constuse:if_branch_returns_constant", oh.make_model(g_, opset_imports=[oh.make_opsetid("", 18)], ir_version=9).SerializeToString(),
                   [("x", int(TP.FLOAT), (2,)), ("cnd", int(TP.BOOL), ())]))
     body_ = oh.make_graph([oh.make_node("Identity", ["ci"], ["co"]), oh.make_node("Add", ["st", "x"], ["so"])], "body",
@@ -447,7 +528,8 @@ def main(tier: str, only=None) -> int:
             counts["functions_not_reattached"] = counts.get("functions_not_reattached", 0) + 1
             r_side = dict(r, verdict="functions_not_reattached", detail=r["functions_not_reattached"])
             report(r_side, "functions_not_reattached", "to_model_proto() of the regenerated script function: " + r["functions_not_reattached"])
-        if r["verdict"] in ("export_raised", "invalid_python", "decoration_failed", "export_of_roundtrip_failed", "signature_changed", "malformed"):
+        if r["verdict"] in ("export_raised", "invalid_python", "decoration_failed", "export_of_roundtrip_failed", "signature_changed", "malformed",
+                            "constant_changed"):
             report(r, r["verdict"], r["detail"])
         elif r["verdict"] == "cex":
             rep = r.get("replay", {})
